@@ -242,7 +242,7 @@ class EBB3:
                     if "EBB" in str_version:
                         verified = True
 
-        except serial.SerialException:
+        except (serial.SerialException, UnicodeDecodeError): # Also: reply that is not ASCII text
             self.record_error(f"Error testing USB connection (port name: {self.port_name})")
             self.disconnect() # Try to close the port, in case it is open.
 
